@@ -4,9 +4,9 @@
   panics as `none`, the `Iter` state machine) and relate it to a flat row-major list:
     abstraction  `flat1/2/3` (unlabelled), `flat? a.toU` (labelled, `toU` erases the wrappers),
     invariant    `Shape1/2/3` = "the storage has the declared shape" (all rows have the declared length).
-  Helper lemmas: SLV/Refine/ArrLemmas{,2,..,7}.lean.  Ranks 1..3, both families, every shape, every cell content.
+  Helper lemmas: SLV/Refine/ArrLemmas{,2,..,8}.lean.  Ranks 1..3, both families, every shape, every cell content.
 -/
-import SLV.Refine.ArrLemmas7
+import SLV.Refine.ArrLemmas8
 
 namespace SLV.Props.C17
 open SLV.MArr
@@ -223,6 +223,20 @@ theorem C17_iter_complete_labelled {d0 d1 d2 : Nat} :
   · obtain ⟨hg, hc⟩ := L3.iter_init h
     have := (L3.LL d1 d2).complete a.iter hg fuel (by rw [hc, flat3_length h]; exact hf)
     rwa [hc] at this
+
+/-- mutable iteration (`IterMut`, the same state machine over `&mut` cells; a reference is modelled by the storage
+    address of its cell): the references come out in row-major order — the addresses are exactly `lexList dims` —
+    and `for (p, x) in a.iter_mut().enumerate() { *x = g(p, *x) }` keeps the shape and maps `g` over the flat list
+    by position: every cell is visited exactly once, in order, and nothing else changes -/
+theorem C17_iter_mut (g : Nat → V → V) {d0 d1 d2 : Nat} :
+    (∀ a : MArrD1 V, Shape1 d0 a.toU → a.iterMutRefs = lexList [d0] ∧
+        Shape1 d0 (a.iterMutApply g).toU ∧ flat1 (a.iterMutApply g).toU = (flat1 a.toU).mapIdx g) ∧
+    (∀ a : MArrD2 V, Shape2 d0 d1 a.toU → a.iterMutRefs = lexList [d0, d1] ∧
+        Shape2 d0 d1 (a.iterMutApply g).toU ∧ flat2 (a.iterMutApply g).toU = (flat2 a.toU).mapIdx g) ∧
+    (∀ a : MArrD3 V, Shape3 d0 d1 d2 a.toU → a.iterMutRefs = lexList [d0, d1, d2] ∧
+        Shape3 d0 d1 d2 (a.iterMutApply g).toU ∧ flat3 (a.iterMutApply g).toU = (flat3 a.toU).mapIdx g) :=
+  ⟨fun _ h => ⟨L1.refs h, L1.iterMutApply_ok g h⟩, fun _ h => ⟨L2.refs h, L2.iterMutApply_ok g h⟩,
+   fun _ h => ⟨L3.refs h, L3.iterMutApply_ok g h⟩⟩
 
 /-- Observation forced by the proof (outside the property: ragged rows can only be built through the unlabelled
     `MArr1::from_iter`, which does not check its length): with an empty row in the middle the adaptor returns `None`
